@@ -22,9 +22,9 @@ The hash is symbolic (`hashOf`): equal hashes ⇔ equal key and equal content by
 absent key and the hash of `nil` equals the hash of the empty value, so `hashOf none = hashOf (some "-")`
 (`"-"` is the token of the empty byte string) — exactly as in the code.
 
-Domain of the model: prefixes are `""` or end in `/`, `after` is a clean path segment with an optional
-trailing `/` (then `filepath.Join(prefix, after)` is `prefix ++ after` without the trailing slash); other
-values are C13's subject. Not modelled: entry size limits, permit pools, `ctx`, metrics, the leak finalizer.
+Both listing paths seek the cursor to the plain concatenation `prefix ++ after` (no path cleaning), so the
+model has no domain restriction on `prefix` / `after` any more: any ASCII strings (prefixes without trailing
+`/`, `after` values with `//`, `./`, `..` segments included). Not modelled: entry size limits, permit pools, `ctx`, metrics, the leak finalizer.
 -/
 namespace Obao.RaftTxn
 open Obao.SerialTxn
@@ -57,17 +57,6 @@ def lsie (pre after key : String) : String × Bool × Bool :=
     let s := String.ofList sub
     (s, false, !(after != "" && !(after < s)))
 
-def dropTrailingSlash (s : String) : String :=
-  match s.toList.reverse with
-  | '/' :: r => String.ofList r.reverse
-  | _ => s
-
-/-- `filepath.Join(prefix, after)` on the model's domain -/
-def joinClean (pre after : String) : String :=
-  let p := dropTrailingSlash pre
-  let a := dropTrailingSlash after
-  if p = "" then a else p ++ "/" ++ a
-
 /-- keys a bbolt cursor yields from `Seek(seek)` while they carry the prefix (the store is sorted) -/
 def cursor (s : Store) (seek pre : String) : List Key :=
   ((s.map (·.1)).dropWhile (fun k => k < seek)).takeWhile (hasPrefix pre)
@@ -97,9 +86,8 @@ def lpiLoop (pre after : String) (limit : Int) : List Key → List String → Li
         else lpiLoop pre after limit r (keys ++ [key])
 
 def listPageInner (s : Store) (pre after : String) (limit : Int) : List String :=
-  let j := joinClean pre after
-  let seek := if after = "" then pre else if hasPrefix pre j then j else pre
-  lpiLoop pre after limit (cursor s seek pre) []
+  -- `seekPrefix := []byte(prefix + after)`: the plain concatenation (no path cleaning, no special cases)
+  lpiLoop pre after limit (cursor s (pre ++ after) pre) []
 
 def insertSorted (x : String) : List String → List String
   | [] => [x]
@@ -202,7 +190,7 @@ def lpLoop (pre after : String) (limit : Int) (deletions : List Key) : List Key 
 def RTxn.listPage (t : RTxn) (pre after : String) (limit : Int) : RTxn × Res :=
   if t.finished then (t, .err .finished)
   else
-    let seek := if after = "" then pre else joinClean pre after
+    let seek := pre ++ after      -- `seekPrefix := []byte(prefix + after)`
     let inScope := t.updates.filter (fun e => hasPrefix pre e.1 && (lsie pre after e.1).2.2)
     let deletions := (inScope.filter (fun e => e.2.isNone)).map (·.1)
     let upd := ((inScope.filter (fun e => e.2.isSome)).map (fun e => (lsie pre after e.1).1)).eraseDups
